@@ -427,6 +427,21 @@ def check_tokens(res, binary, seed, tier, model_ok):
     res.distinct.add(("reader-tokens", n))
 
 
+def observe_leak(res, binary, seed, tier):
+    """Not a clause of the property: serialize has no barrier after the write, so an insert issued by a rank that has
+    already returned from serialize may still be applied by a rank that is slower to leave the leading barrier and end up
+    in that rank's image.  Recorded in the evidence notes; never a failure."""
+    n = 20 if tier == "quick" else 200
+
+    def do(ss):
+        return C.run_sim(binary, ["leak"], nodes=1, ppn=3, sim_seed=seed * 1000 + ss, env={"YGM_COMM_BUFFER_SIZE_KB": 0}, want_log=False, timeout=60)
+    hits = sum(1 for sr in C.pmap(do, list(range(n))) if sr.verdict == "ok" and any(o and o[0].endswith("1") for o in sr.outs.values()))
+    res.notes.append(f"observation (outside the property): an insert issued after the issuing rank returned from serialize() reached another "
+                     f"rank's image in {hits}/{n} schedules (1x3, capacity 0) - the image is a consistent snapshot only if nothing is issued "
+                     f"before every rank has left serialize")
+    res.count("leak-observed", hits)
+
+
 def run(tier, seed, model_ok=True):
     res = C.Result()
     res.rule = RULE
@@ -444,6 +459,7 @@ def run(tier, seed, model_ok=True):
     for c, sr in C.pmap(lambda c: (c, run_case(binary, c)), cases):
         check_case(res, c, sr, model_ok)
     check_tokens(res, binary, seed, tier, model_ok)
+    observe_leak(res, binary, seed, tier)
     return res
 
 
